@@ -14,3 +14,10 @@ package util
 //@   property C16
 //@   ensures baseURL == "" ==> res == pathOrURL
 //@   ensures baseURL != "" && pathOrURL == "" ==> res == baseURL
+
+// the client identity used for rate limiting when proxy headers are not trusted: the host part of the peer address
+//@ spec func hostOfAddr(a string) string = ite(purecall("net.SplitHostPort#2", "error", a) == nil, purecall("net.SplitHostPort", "string", a), a)
+//@ func GetClientIP
+//@   property C17
+//@   requires r != nil
+//@   ensures !trustProxyHeaders ==> res == hostOfAddr(r.RemoteAddr)
